@@ -74,7 +74,8 @@ func DrawScenario(t *Tape, property string) (*Scenario, Config) {
 	case 5:
 		sc.Traffic = "custom-cm"
 	case 1:
-		sc.Traffic = "ingress-nginx"
+		// the nginx family of shipped ingress scripts: nginx, higress and mse write the same canary annotations
+		sc.Traffic = []string{"ingress-nginx", "ingress-nginx", "ingress-higress", "ingress-mse"}[t.Next(4)]
 	case 2:
 		sc.Traffic = "gateway"
 	case 3:
@@ -175,7 +176,7 @@ func applyProfile(t *Tape, property string, sc *Scenario, cfg *Config) {
 			sc.Events = append([]UserEvent{{Kind: "edit-plan-current", AtStep: 1 + t.Next(len(sc.Steps)), AtState: stepStates[1+t.Next(5)], Arg: t.Next(1000)}}, sc.Events...)
 		}
 	case "C10", "C04", "C13", "C14", "C15", "C03":
-		force := map[string]string{"C13": "gateway", "C14": []string{"ingress-nginx", "ingress-aliyun-alb"}[t.Next(2)], "C15": []string{"istio", "custom-cm"}[t.Next(2)]}[property]
+		force := map[string]string{"C13": "gateway", "C14": []string{"ingress-nginx", "ingress-aliyun-alb", "ingress-higress", "ingress-mse"}[t.Next(4)], "C15": []string{"istio", "custom-cm"}[t.Next(2)]}[property]
 		if force != "" && sc.Traffic != force {
 			sc.Traffic = ""
 		}
